@@ -7,6 +7,7 @@ import (
 	"sync"
 
 	"github.com/AdguardTeam/urlfilter"
+	"github.com/AdguardTeam/urlfilter/filterlist"
 	"github.com/AdguardTeam/urlfilter/rules"
 
 	"verif/enum"
@@ -221,6 +222,27 @@ func c08Pair(x *c08Ctx, sx, sy srule) int64 {
 						fmt.Sprintf("rewrite rule %q with badfilter rule %q: effective=%v, expected effective=%v", sy.text(), st.text(), effective, !same), replay)
 				}
 				continue
+			}
+			// the exported filter itself: no badfilter rule survives, y survives iff the twin identity differs, the input is left alone
+			{
+				before := netTexts(order)
+				kept := rules.RemoveBadfilterRules(order)
+				hasY := false
+				for _, k := range kept {
+					if isBad(k) {
+						x.violate("badfilter-rule-never-returned", sig, fmt.Sprintf("RemoveBadfilterRules(%v) keeps the badfilter rule %q", before, k.RuleText), replay)
+					}
+					if k == y {
+						hasY = true
+					}
+				}
+				if hasY == same {
+					x.violate("badfilter-disables-exactly-twins", sig,
+						fmt.Sprintf("RemoveBadfilterRules(%v): rule %q kept=%v, expected kept=%v (twin identity equal: %v)", before, sy.text(), hasY, !same, same), replay)
+				}
+				if after := netTexts(order); fmt.Sprint(after) != fmt.Sprint(before) {
+					x.violate("badfilter-disables-exactly-twins", sig, fmt.Sprintf("RemoveBadfilterRules changed the list it was given: %v became %v", before, after), replay)
+				}
 			}
 			for which, sel := range []*rules.NetworkRule{rules.NewMatchingResult(order, nil).BasicRule, rules.GetDNSBasicRule(order)} {
 				name := []string{"NewMatchingResult", "GetDNSBasicRule"}[which]
@@ -493,8 +515,23 @@ func c08EngineLayer(x *c08Ctx, c *Ctx) int64 {
 	for _, s := range append(append([]srule{}, web...), dns...) {
 		byText[s.text()] = s
 	}
+	var webVerdictOn func(lines []string, st *filterlist.RuleStorage) string
 	webVerdict := func(lines []string) string {
-		st := stringStorage(joinLines(lines) + "\n")
+		one := webVerdictOn(lines, stringStorage(joinLines(lines)+"\n"))
+		// the same lines in a deployment-shaped storage (three lists, one of them comments only, ids not
+		// ascending, no terminator after the last line; file-backed for every fourth case)
+		h := 0
+		for _, l := range lines {
+			h += len(l)
+		}
+		st, release := deployStorage(lines, h%4 == 0)
+		defer release()
+		if dep := webVerdictOn(lines, st); dep != one {
+			return "as one list: " + one + " -- spread over three lists (file-backed: " + fmt.Sprint(h%4 == 0) + "): " + dep
+		}
+		return one
+	}
+	webVerdictOn = func(lines []string, st *filterlist.RuleStorage) string {
 		e := urlfilter.NewEngine(st)
 		ne := urlfilter.NewNetworkEngine(st)
 		var sb strings.Builder
@@ -643,7 +680,21 @@ func scenDNSReq() *urlfilter.DNSRequest {
 
 // dnsVerdictOf renders the DNS verdict for a list: basic rule class, host rules and effective rewrites.
 func dnsVerdictOf(lines []string, byText map[string]srule, dnsReq *urlfilter.DNSRequest) string {
-	e := urlfilter.NewDNSEngine(stringStorage(joinLines(lines) + "\n"))
+	one := dnsVerdictOn(stringStorage(joinLines(lines)+"\n"), byText, dnsReq)
+	h := 0
+	for _, l := range lines {
+		h += len(l)
+	}
+	st, release := deployStorage(lines, h%4 == 1)
+	defer release()
+	if dep := dnsVerdictOn(st, byText, dnsReq); dep != one {
+		return "as one list: " + one + " -- spread over three lists (file-backed: " + fmt.Sprint(h%4 == 1) + "): " + dep
+	}
+	return one
+}
+
+func dnsVerdictOn(st *filterlist.RuleStorage, byText map[string]srule, dnsReq *urlfilter.DNSRequest) string {
+	e := urlfilter.NewDNSEngine(st)
 	res, ok := e.MatchRequest(dnsReq)
 	if isBad(res.NetworkRule) {
 		return "badfilter rule returned"
